@@ -98,6 +98,8 @@ type Link struct {
 	CloseAt [2]time.Duration // simulated time of that close
 	CutEv   int64 // event at which a fault reset the link
 	CutAt   time.Duration
+	// EndSeenAt[i]: when endpoint i's reader was first told the stream had ended (EOF or reset); 0 = not yet
+	EndSeenAt [2]time.Duration
 }
 
 type pipe struct {
@@ -566,10 +568,16 @@ func (c *Conn) Read(b []byte) (int, error) {
 			return 0, nil
 		}
 		if p.rst {
+			if c.link.EndSeenAt[c.side] == 0 {
+				c.link.EndSeenAt[c.side] = simrt.Elapsed() + 1
+			}
 			return 0, errReset
 		}
 		if p.fin {
 			simrt.HBAcquire(&netIOSync) // (a read returning 0 without error acquires as well)
+			if c.link.EndSeenAt[c.side] == 0 {
+				c.link.EndSeenAt[c.side] = simrt.Elapsed() + 1
+			}
 			return 0, io.EOF
 		}
 		if deadlinePassed(c.rdl) {
